@@ -117,7 +117,7 @@ func hostileWorker(args []string) error {
 			return err
 		}
 		if skipSigs[sigOf(&c)] {
-			b, _ := json.Marshal(houtcome{I: c.I, Class: "unconfirmed", Where: "not run: three inputs of this signature overran their deadline already"})
+			b, _ := json.Marshal(houtcome{I: c.I, Class: "unconfirmed", Where: "not run: two inputs of this signature overran their deadline already, alone as well"})
 			fmt.Fprintf(of, "DONE %s\n", b)
 			continue
 		}
@@ -526,7 +526,7 @@ var casesASGiB uint64 = 12
 // casesDeadline is the per-input CPU deadline of the first pass (the confirmation pass has 120 s).
 var casesDeadline = "20s"
 
-// sigOf groups the cases of a plan: when three inputs of one group have overrun their deadline, the rest of the group is
+// sigOf groups the cases of a plan: when two inputs of one group have overrun their deadline (also when run alone), the rest of the group is
 // not run (a change that makes a whole group hang would otherwise cost its deadline per input).
 func sigOf(c *hcase) string {
 	return fmt.Sprintf("%s|%v|%s|%s|%s", c.EP, c.Seek, c.Rec, c.Fld, c.Kind)
@@ -556,7 +556,7 @@ func runCases(casesPath string, n int, dirv string, workersv int) []*houtcome {
 		defer mu.Unlock()
 		var l []string
 		for sg, k := range overruns {
-			if k >= 3 {
+			if k >= 2 {
 				l = append(l, sg)
 			}
 		}
